@@ -11,14 +11,17 @@ case "$APPEND" in
   crates/core/tests/*) TARGS="--test integration" ;;
   *) TARGS="--lib" ;;
 esac
+PKG=rustic_core
+case "$APPEND" in crates/backend/*) PKG=rustic_backend ;; esac
 git -C /repo worktree add --detach "$W" HEAD >/dev/null 2>&1 || exit 3
 cd "$W"
-run_demo() { cargo test -p rustic_core --offline $TARGS seeded_demo 2>&1 | grep -E "^test result|panicked at" | head -5; }
+run_demo() { cargo test -p $PKG --offline $TARGS seeded_demo 2>&1 | grep -E "^test result|panicked at" | head -5; }
 cat "$D/demo_test.rs" >> "$APPEND"
 echo "--- demo WITHOUT patch:"; run_demo
 git apply "$D/patch.diff" || { echo "patch does not apply"; }
 echo "--- demo WITH patch:"; run_demo
 git checkout -- "$APPEND"; git apply "$D/patch.diff" 2>/dev/null
+[ "$PKG" = rustic_backend ] && { echo "--- existing tests WITH patch (rustic_backend):"; cargo test -p rustic_backend --offline 2>&1 | grep -E "^test result|FAILED|failed" | head -8; }
 echo "--- existing tests WITH patch (lib):"; cargo test -p rustic_core --offline --lib 2>&1 | grep -E "^test result|FAILED|failed" | head -8
 echo "--- existing tests WITH patch (integration):"; cargo test -p rustic_core --offline --test integration 2>&1 | grep -E "^test result|FAILED|failed" | head -8
 cd /; git -C /repo worktree remove --force "$W"
